@@ -55,8 +55,10 @@ var datas = map[string][]byte{
 	"a": []byte("AAAA-data-a"),
 	"b": []byte("bbbbbbbbbbbbbbbbbbbbbbbb-data-b"),
 	"L": bytes.Repeat([]byte("0123456789abcdef"), 200),
-	"M": bytes.Repeat([]byte("fedcba9876543210"), 200), // same length as L
-	"c": []byte("CCCC-data-c"),                         // same length as a
+	"M": bytes.Repeat([]byte("fedcba9876543210"), 200),   // same length as L
+	"c": []byte("CCCC-data-c"),                           // same length as a
+	"H": bytes.Repeat([]byte("HHHHhhhh01234567"), 16000), // 256000 bytes: makes a throttled compaction last
+	"I": bytes.Repeat([]byte("IIIIiiii76543210"), 16000), // same length as H
 }
 
 var cookies = map[string]uint32{"c1": 0x11111111, "c2": 0x22222222, "c3": 0x33333333}
@@ -261,6 +263,7 @@ func (r *runner) runExec(ex []tr.Ev) []tr.Ev {
 			continue
 		}
 		e = tr.Copy(e)
+		var during []tr.Ev
 		pan := tr.Guard(func() {
 			switch ev {
 			case "write":
@@ -286,10 +289,31 @@ func (r *runner) runExec(ex []tr.Ev) []tr.Ev {
 						e["res"] = "ok"
 					}
 				} else {
+					// "during": operations issued while the (throttled) compaction RPC is running
+					var dwg sync.WaitGroup
+					for _, d := range tr.List(e["during"]) {
+						dop := tr.Copy(d.(map[string]interface{}))
+						during = append(during, dop)
+						dwg.Add(1)
+						go func() {
+							defer dwg.Done()
+							time.Sleep(time.Duration(20+tr.I(dop, "delay")) * time.Millisecond)
+							switch tr.S(dop, "ev") {
+							case "write":
+								r.write(vid, dop)
+							case "delete":
+								r.del(vid, dop)
+							}
+						}()
+					}
+					t0 := time.Now()
 					e["res"] = r.admin(func(c volume_server_pb.VolumeServerClient) error {
 						_, err := c.VacuumVolumeCompact(ctx, &volume_server_pb.VacuumVolumeCompactRequest{VolumeId: vid})
 						return err
 					})
+					e["ms"] = int(time.Since(t0) / time.Millisecond)
+					dwg.Wait()
+					delete(e, "during")
 				}
 			case "commit":
 				e["res"] = r.admin(func(c volume_server_pb.VolumeServerClient) error {
@@ -322,6 +346,12 @@ func (r *runner) runExec(ex []tr.Ev) []tr.Ev {
 			break
 		}
 		out = append(out, e)
+		// operations that ran while the compaction was running are recorded after it: a compaction is
+		// invisible, so their order relative to it carries no meaning for the judge
+		for _, d := range during {
+			delete(d, "delay")
+			out = append(out, d)
+		}
 		for _, k := range keys {
 			for _, c := range cks {
 				out = append(out, r.read(vid, k, c))
@@ -405,7 +435,11 @@ func main() {
 	o := tr.ParseFlags()
 	w := tr.NewWriter(o.Out)
 	defer w.Close()
-	c, err := cluster.New(cluster.Options{Volumes: 1})
+	mbps := 0
+	if o.Mode == "throttled" {
+		mbps = 1
+	}
+	c, err := cluster.New(cluster.Options{Volumes: 1, CompactionMBps: mbps})
 	if err != nil {
 		tr.Fatal("cluster: %v", err)
 	}
